@@ -1,1 +1,298 @@
-// harnesses for lexer
+// Lexer-level harnesses (C01..C19 as tagged). Compiled inside `lexer` (mod.rs) under cfg(kani).
+// Conventions (DESIGN.md §2.2): discrete tags (mode tags, first characters) are constants of a
+// harness instance; everything else (followers, nesting depths, flags, look-behind types) is symbolic.
+// The work buffer is replaced by the shadow buffer (buffer.rs), whose contract is proved there.
+
+use super::buffer::verif::{any_channel, any_token_type, shadow};
+use super::cursor::verif::Txt;
+
+/// Constant prefix consumed before every step: bases are byte 3 / char 2 / line index 1, so that
+/// byte, char and line offsets are pairwise different and non-zero.
+pub(crate) const PFX: &str = "\u{e9}\n";
+
+macro_rules! lx_harness {
+    ($(#[$m:meta])* fn $name:ident() $body:block) => {
+        #[kani::proof]
+        #[kani::stub(WorkTokenizedBuffer::add_token, WorkTokenizedBuffer::sh_add_token)]
+        #[kani::stub(WorkTokenizedBuffer::add_line, WorkTokenizedBuffer::sh_add_line)]
+        #[kani::stub(WorkTokenizedBuffer::last_line, WorkTokenizedBuffer::sh_last_line)]
+        #[kani::stub(WorkTokenizedBuffer::last_line_info, WorkTokenizedBuffer::sh_last_line_info)]
+        #[kani::stub(WorkTokenizedBuffer::last_token, WorkTokenizedBuffer::sh_last_token)]
+        #[kani::stub(WorkTokenizedBuffer::last_token_info, WorkTokenizedBuffer::sh_last_token_info)]
+        #[kani::stub(WorkTokenizedBuffer::last_token_info_mut, WorkTokenizedBuffer::sh_last_token_info_mut)]
+        #[kani::stub(WorkTokenizedBuffer::last_token_info_on_default_channel, WorkTokenizedBuffer::sh_last_token_info_on_default_channel)]
+        #[kani::stub(WorkTokenizedBuffer::last_token_info_on_default_channel_mut, WorkTokenizedBuffer::sh_last_token_info_on_default_channel_mut)]
+        #[kani::stub(WorkTokenizedBuffer::line_count, WorkTokenizedBuffer::sh_line_count)]
+        #[kani::stub(WorkTokenizedBuffer::token_count, WorkTokenizedBuffer::sh_token_count)]
+        #[kani::stub(WorkTokenizedBuffer::next_string_literal_start, WorkTokenizedBuffer::sh_next_string_literal_start)]
+        #[kani::stub(WorkTokenizedBuffer::add_string_literal, WorkTokenizedBuffer::sh_add_string_literal)]
+        #[kani::stub(WorkTokenizedBuffer::checkpoint, WorkTokenizedBuffer::sh_checkpoint)]
+        #[kani::stub(WorkTokenizedBuffer::rollback, WorkTokenizedBuffer::sh_rollback)]
+        $(#[$m])*
+        fn $name() $body
+    };
+}
+
+// ---------------------------------------------------------------------------------------------
+// stubs for leaves that are out of CBMC's reach (DESIGN.md §2.4)
+
+/// unicode_ident tables: exact on ASCII, arbitrary on non-ASCII (with start => continue).
+pub(crate) fn stub_xid_continue(c: char) -> bool {
+    if c.is_ascii() {
+        c.is_ascii_alphanumeric() || c == '_'
+    } else {
+        kani::any()
+    }
+}
+pub(crate) fn stub_xid_start(c: char) -> bool {
+    if c.is_ascii() {
+        c.is_ascii_alphabetic()
+    } else {
+        kani::any()
+    }
+}
+
+// ---------------------------------------------------------------------------------------------
+
+pub(crate) fn rank(m: &LexerMode) -> u8 {
+    match m {
+        LexerMode::MacroDo | LexerMode::MacroLocalGlobal { .. } | LexerMode::MacroDefArg => 5,
+        LexerMode::MacroCallArgOrValue { .. } | LexerMode::MaybeMacroDefArgs | LexerMode::MacroDefNextArgOrDefaultValue => 4,
+        LexerMode::MaybeMacroCallArgsOrLabel { .. } | LexerMode::MaybeMacroCallArgAssign { .. } | LexerMode::MaybeTailMacroArgValue => 3,
+        LexerMode::Default
+        | LexerMode::StringExpr { .. }
+        | LexerMode::MacroEval { .. }
+        | LexerMode::MacroCallValue { .. }
+        | LexerMode::MacroStrQuotedExpr { .. }
+        | LexerMode::MacroNameExpr(..)
+        | LexerMode::MacroDefName
+        | LexerMode::MacroSemiTerminatedTextExpr
+        | LexerMode::MacroStatOptionsTextExpr => 2,
+        LexerMode::ExpectSymbol(..) | LexerMode::ExpectSemiOrEOF => 1,
+        LexerMode::WsOrCStyleCommentOnly | LexerMode::MakeCheckpoint => 0,
+    }
+}
+
+/// Lexer positioned after the constant prefix of `t`, with the given mode stack (bottom first),
+/// shadow buffer reset, first line(s) recorded through the real plumbing.
+pub(crate) fn setup<'a, const K: usize, const B: usize>(t: &'a Txt<K, B>, modes: &[LexerMode]) -> Lexer<'a> {
+    let src = t.as_str();
+    shadow::reset(src.len());
+    let buffer = WorkTokenizedBuffer::verif_new(src.len(), 4);
+    let cursor = cursor::Cursor::new(src);
+    let mut mode_stack = Vec::with_capacity(24);
+    let mut i = 0;
+    while i < modes.len() {
+        mode_stack.push(modes[i].clone());
+        i += 1;
+    }
+    let mut lx = Lexer {
+        source: src,
+        source_len: src.len() as u32,
+        buffer,
+        cursor,
+        cur_token_byte_offset: ByteOffset::new(0),
+        cur_token_start: CharOffset::new(0),
+        cur_token_line: super::buffer::verif::line_idx(0),
+        #[cfg(debug_assertions)]
+        last_state: (src.len() as u32, Vec::new()),
+        mode_stack,
+        errors: Vec::with_capacity(8),
+        checkpoint: None,
+        macro_nesting_level: 0,
+        pending_stat_stack: BitVec::from_elem(1, false),
+    };
+    lx.buffer.add_line(ByteOffset::new(0), CharOffset::new(0));
+    // consume the constant prefix the way every scanner does
+    let mut it = PFX.chars();
+    while let Some(c) = it.next() {
+        lx.cursor.advance();
+        if c == '\n' {
+            lx.add_line();
+        }
+    }
+    lx.start_token();
+    lx
+}
+
+/// how many new tokens / errors of one step the common checker inspects (more is a harness failure)
+pub(crate) const NEW_TOK_MAX: usize = 4;
+pub(crate) const NEW_ERR_MAX: usize = 3;
+
+pub(crate) struct Pre {
+    pub(crate) pi: usize,
+    pub(crate) tok_n: usize,
+    pub(crate) line_n: usize,
+    pub(crate) lit_n: usize,
+    pub(crate) err_n: usize,
+    pub(crate) stack_len: usize,
+    pub(crate) top_rank: u8,
+    pub(crate) had_checkpoint: bool,
+}
+
+pub(crate) fn snapshot<const K: usize, const B: usize>(lx: &Lexer, t: &Txt<K, B>) -> Pre {
+    let p = lx.cur_byte_offset().get() as usize;
+    Pre {
+        pi: t.idx_of(p).unwrap(),
+        tok_n: shadow::tok_n(),
+        line_n: shadow::line_n(),
+        lit_n: shadow::lit_n(),
+        err_n: lx.errors.len(),
+        stack_len: lx.mode_stack.len(),
+        top_rank: lx.mode_stack.last().map_or(0, rank),
+        had_checkpoint: lx.checkpoint.is_some(),
+    }
+}
+
+/// Post-state invariants shared by every step harness: POS (C03), LINE (C04), TOK (C02/C03/C04),
+/// error records (C01 no 9xxx, C03/C04/C09 anchoring). Returns the char index of the cursor.
+pub(crate) fn check_common<const K: usize, const B: usize>(lx: &Lexer, t: &Txt<K, B>, pre: &Pre) -> usize {
+    // POS
+    let p = lx.cur_byte_offset().get() as usize;
+    let pi_opt = t.idx_of(p);
+    assert!(pi_opt.is_some(), "C03: cursor byte position is not a character boundary");
+    let pi = pi_opt.unwrap();
+    assert!(lx.cursor.char_offset() == t.char_at(pi), "C03: cursor char offset is not the code-point index of its byte offset");
+    // LINE: one entry per line feed passed, each just past its line feed
+    let ln = shadow::line_n();
+    assert!(ln as u32 == 1 + t.pre_nl + t.nl_upto(pi), "C04: line entries != 1 + line feeds consumed");
+    let mut li = (1 + t.pre_nl) as usize;
+    let mut i = 0;
+    while i < K {
+        if i < pi && t.ch[i] == '\n' {
+            let (lb, lc) = shadow::line(li);
+            assert!(lb as usize == t.byte_at(i + 1) && lc == t.char_at(i + 1), "C04: line entry is not just past its line feed");
+            li += 1;
+        }
+        i += 1;
+    }
+    // TOK: new tokens are cursor snapshots in non-decreasing order, at or before the cursor
+    let tn = shadow::tok_n();
+    let mut prev_b = if pre.tok_n > 0 && pre.tok_n <= tn { shadow::tok(pre.tok_n - 1).byte_offset.get() } else { 0 };
+    assert!(tn <= pre.tok_n + NEW_TOK_MAX || tn < pre.tok_n, "harness: more new tokens than the checker inspects");
+    let mut jj = 0;
+    while jj < NEW_TOK_MAX {
+        let j = pre.tok_n + jj;
+        if j < tn {
+            let tk = shadow::tok(j);
+            let b = tk.byte_offset.get();
+            assert!(b >= prev_b, "C02: token start offsets decrease");
+            assert!(b as usize <= p, "C02: token starts after the cursor");
+            let bi = t.idx_of(b as usize);
+            assert!(bi.is_some(), "C02/C03: token start is not a character boundary");
+            let bi = bi.unwrap();
+            assert!(tk.start.get() == t.char_at(bi), "C03: token char offset is not the code-point index of its byte offset");
+            assert!(super::buffer::verif::line_idx_get(tk.line) == t.pre_nl + t.nl_upto(bi), "C04: token line is not the number of line feeds before its start");
+            assert!(tk.token_type != TokenType::EOF, "C02: EOF token before the end of lexing");
+            prev_b = b;
+        }
+        jj += 1;
+    }
+    // errors
+    let en = lx.errors.len();
+    let mut prev_e = 0u32;
+    assert!(en <= pre.err_n + NEW_ERR_MAX || en < pre.err_n, "harness: more new errors than the checker inspects");
+    let mut jj = 0;
+    while jj < NEW_ERR_MAX {
+        let j = pre.err_n + jj;
+        if j < en {
+            let e = lx.errors[j];
+            assert!(!e.error_kind().is_internal(), "C01: internal (9xxx) error reported");
+            let ei = t.idx_of(e.at_byte_offset() as usize);
+            assert!(ei.is_some(), "C09/C03: error byte offset is not a character boundary");
+            let ei = ei.unwrap();
+            assert!(e.at_char_offset() == t.char_at(ei), "C03: error char offset is not the code-point index of its byte offset");
+            assert!(e.on_line() == 1 + t.pre_nl + t.nl_upto(ei), "C04: error line");
+            assert!(e.at_column() == t.char_at(ei) - t.line_start(ei).1, "C04: error column");
+            assert!(e.at_byte_offset() >= prev_e, "C09: errors out of source order");
+            prev_e = e.at_byte_offset();
+            match e.last_token() {
+                Some(k) => {
+                    assert!((k.get() as usize) < tn, "C09: error names a token that is not in the buffer");
+                    assert!(shadow::tok(k.get() as usize).byte_offset.get() <= e.at_byte_offset(), "C09: error names a token that starts after it");
+                }
+                None => assert!(tn == 0 || pre.tok_n == 0, "C09: error without a last token although tokens exist"),
+            }
+        }
+        jj += 1;
+    }
+    pi
+}
+
+/// Progress contract of one main-loop step (DESIGN.md §4.C01). `next` = the unconsumed next char.
+pub(crate) fn check_progress<const K: usize, const B: usize, const MAXPUSH: usize>(lx: &Lexer, t: &Txt<K, B>, pre: &Pre, pi: usize) {
+    let n = lx.mode_stack.len();
+    let consumed = pi > pre.pi;
+    let popped = pi == pre.pi && n < pre.stack_len;
+    // ranked replace: everything at or above the old top's position has a smaller rank than the old top
+    let mut ranked = pi == pre.pi && n >= pre.stack_len && pre.stack_len >= 1;
+    let mut k = 0;
+    while k < MAXPUSH {
+        let i = pre.stack_len - 1 + k;
+        if pre.stack_len >= 1 && i < n && rank(&lx.mode_stack[i]) >= pre.top_rank {
+            ranked = false;
+        }
+        k += 1;
+    }
+    assert!(n < pre.stack_len + MAXPUSH, "C01: more modes pushed in one step than this function may push");
+    // push with guaranteed consumer: Ws mode on top and the next char is whitespace or starts a comment
+    let nx = if pi < t.n { Some(t.ch[pi]) } else { None };
+    let nx2 = if pi + 1 < t.n { Some(t.ch[pi + 1]) } else { None };
+    let ws_follows = nx.map_or(false, char::is_whitespace) || (nx == Some('/') && nx2 == Some('*'));
+    let push_consumer = pi == pre.pi && n > pre.stack_len && matches!(lx.mode_stack.last(), Some(LexerMode::WsOrCStyleCommentOnly)) && ws_follows;
+    // rollback: a live checkpoint was consumed
+    let rolled_back = pre.had_checkpoint && lx.checkpoint.is_none() && pi <= pre.pi;
+    assert!(consumed || popped || ranked || push_consumer || rolled_back, "C01: step neither consumes input nor makes ranked progress on the mode stack");
+    // bounded output
+    let added = shadow::tok_n() as i64 - pre.tok_n as i64;
+    let eaten = pi as i64 - pre.pi as i64;
+    assert!(added <= eaten.max(0) + 3, "C01: more tokens emitted than characters consumed + 3");
+}
+
+/// Text of new token j as a char-index range [s, e): from its start to the next token's start or the cursor.
+pub(crate) fn tok_range<const K: usize, const B: usize>(t: &Txt<K, B>, j: usize, pi: usize) -> (usize, usize) {
+    let s = t.idx_of(shadow::tok(j).byte_offset.get() as usize).unwrap();
+    let e = if j + 1 < shadow::tok_n() { t.idx_of(shadow::tok(j + 1).byte_offset.get() as usize).unwrap() } else { pi };
+    (s, e)
+}
+
+// =============================================================================================
+// Scanners
+
+macro_rules! lx_ws_harness {
+    ($k:literal, $b:literal, $uw:literal, $name:ident) => {
+        lx_harness! {
+            #[kani::unwind($uw)]
+            fn $name() {
+                let t = Txt::<$k, $b>::any(PFX, &[]);
+                kani::assume(t.n >= 1 && t.ch[0].is_whitespace());
+                let mut lx = setup(&t, &[LexerMode::Default, LexerMode::WsOrCStyleCommentOnly]);
+                let pre = snapshot(&lx, &t);
+                lx.lex_ws();
+                let pi = check_common(&lx, &t, &pre);
+                check_progress::<$k, $b, 2>(&lx, &t, &pre, pi);
+                // C06: exactly one hidden WS token, its text is the maximal whitespace run
+                assert!(shadow::tok_n() == pre.tok_n + 1, "C06: lex_ws emits exactly one token");
+                let tk = shadow::tok(pre.tok_n);
+                assert!(tk.token_type == TokenType::WS && tk.channel == TokenChannel::HIDDEN, "C06: whitespace is a hidden WS token");
+                let (s, e) = tok_range(&t, pre.tok_n, pi);
+                assert!(s == pre.pi && e == pi && e > s, "C06/C02: WS token spans the consumed text and is non-empty");
+                let mut i = 0;
+                while i < $k {
+                    if i >= s && i < e {
+                        assert!(t.ch[i].is_whitespace(), "C06: WS token contains a non-whitespace character");
+                    }
+                    i += 1;
+                }
+                assert!(pi == t.n || !t.ch[pi].is_whitespace(), "C11/C06: whitespace run is maximal");
+                assert!(lx.mode_stack.len() == pre.stack_len && lx.errors.len() == pre.err_n, "C01: lex_ws touches neither modes nor errors");
+                kani::cover!(pi == $k && t.nl_upto(pi) >= 2, "several line feeds consumed");
+                kani::cover!(pi < t.n && t.len - t.pre_b > t.n, "stopped before a multi-byte character");
+                kani::cover!(t.ch[0] == '\u{3000}', "non-ASCII whitespace");
+                std::mem::forget(lx);
+            }
+        }
+    };
+}
+lx_ws_harness!(2, 12, 6, lx_ws_k2);
+lx_ws_harness!(3, 16, 6, lx_ws_k3);
